@@ -50,6 +50,13 @@ func GenerateArgon2id(password string) *PHC {
 	}
 }
 
+// Upper bounds for the cost parameters of a stored hash: 4 GiB of memory (m is in KiB) and 2^20 passes,
+// both far above the defaults used for new hashes.
+const (
+	maxArgonMem  = 4 << 20
+	maxArgonTime = 1 << 20
+)
+
 func ParsePHC(s string) (*PHC, error) {
 	s = strings.TrimSpace(s)
 	if s == "" {
@@ -132,6 +139,11 @@ func ParsePHC(s string) (*PHC, error) {
 	}
 	if memory == 0 || time == 0 || threads == 0 {
 		return nil, fmt.Errorf("missing required parameters m,t,p or zero values")
+	}
+	// A stored hash is verified with its own cost parameters. Refuse costs no login could run: a
+	// memory cost of terabytes aborts the process (out of memory), billions of passes never end.
+	if memory > maxArgonMem || time > maxArgonTime {
+		return nil, fmt.Errorf("cost parameters out of range: m=%d (max %d), t=%d (max %d)", memory, maxArgonMem, time, maxArgonTime)
 	}
 
 	// Decode salt (expect 16 bytes to fit [16]byte)
